@@ -20,6 +20,14 @@ CHECKS = {
   text="Comparison-normal-form guard analysis decides, for every value, that each write of Parameter's value/min/max (complete, name-mangled writer sets) is dominated by the comparisons keeping min <= value <= max and that no write precedes a possible raise (rejected update changes nothing); structural late-binding rules decide that components read parameter-bearing fields only through the resolving accessor, that the range check accepts exactly [0,1] on the *resolved* value and dominates matrix construction, that Circuit.U/U_full compile on every read and store nothing on the circuit, that collection/freezing reach every field of every component through groups and that every build exception is wrapped in CircuitCompilationError. The numeric value of the rebuilt unitary is not claimed.",
   note="Trusted: CPython ast; literal implication table of the comparison normal form (> implies >=, == implies <=,>=); unpack_circuit_spec flattens groups (decided under C09).",
   tech=TECH + "guard facts in comparison normal form (CNF clauses over normalised terms), CFG dominance, write-before-raise dataflow, structural exhaustiveness checks", ref="DESIGN.md §3 R-E, R-D, R-H; §4 C10"),
+ "C01": dict(
+  text="Structural necessary conditions of 'U = ordered product of the documented component matrices': user->full mode mapping applied exactly once and validated before a component is recorded in every primitive mutator (qualifier propagation over all paths), exact accepted range of the mode check, left multiplication and in-order group recursion in the compiler, one extra mode per Loss with U the leading block, each component writing exactly its own mode block, permutation stored as [dest, src]. Decides the bookkeeping for every construction program; the numeric entries (cos/sin, sqrt(1-loss)) and unitarity are not claimed.",
+  note="Trusted: numpy product/pad/identity semantics; dataclass constructors store arguments unchanged; public parameter names denote user-visible indices.",
+  tech=TECH + "mode-space qualifier dataflow (USER/FULL lattice), must-analysis validated-before-recorded, comparison normal form, structural index-set comparison", ref="DESIGN.md §3 R-A, R-M, R-E; §4 C01"),
+ "C02": dict(
+  text="Structural necessary conditions of the sub-circuit wiring: Circuit.add maps/validates its placement once and writes only full-space indices into herald maps, internal-mode list and group span; the size test is typed in one unit (user vs full counts); pass-through indices are registered as fixed points of the output-swap synthesis; all index-shifting / pop-by-index loops iterate sorted sequences (independence of herald declaration order); both spec-shifting functions rewrite every mode-bearing field of every component kind; ancilla registration is paired across the four herald maps and the internal list; groups never nest. Amplitude-level composition (correctness of the swap synthesis and of the > / >= shift predicates) is not claimed.",
+  note="Trusted: component field classification table (unclassified field -> ANALYSIS-ERROR); API parameter names denote user indices; structure of add() (pass-through loop + provisional swap table) is an anchor: if it is redesigned the check reports ANALYSIS-ERROR, not a verdict.",
+  tech=TECH + "qualifier dataflow with unit-typed linear forms, sortedness rule on index-shifting loops, exhaustive isinstance-dispatch coverage per component kind, pairing/sibling comparison", ref="DESIGN.md §3 R-A, R-L, R-H; §4 C02"),
 }
 NA = {}
 
